@@ -43,6 +43,7 @@ class _F:
         self.returns = []
         self.returns_seen = False
         self.bad = []
+        self.rebound = set()   # names re-assigned before the obligation was met (on any earlier statement)
 
     def expr_calls(self, e):
         """does evaluating e (certainly) perform a satisfying call?"""
@@ -91,7 +92,14 @@ class _F:
             return None
         if isinstance(s, (ast.Expr, ast.Assign, ast.AugAssign, ast.AnnAssign)):
             v = s.value
-            return st or self.expr_calls(v)
+            res = st or self.expr_calls(v)
+            if not res and not isinstance(s, ast.Expr):
+                tg = s.targets if isinstance(s, ast.Assign) else [s.target]
+                for t in tg:
+                    for n in ast.walk(t):
+                        if isinstance(n, ast.Name) and isinstance(n.ctx, ast.Store):
+                            self.rebound.add(n.id)
+            return res
         if isinstance(s, ast.Assert):
             return st
         if isinstance(s, ast.If):
